@@ -1095,6 +1095,16 @@ class Lowerer:
         targs = ''
         if self.is_func_template_inst(n):
             ta = self.cpp_targs(n)
+            # clang's JSON prints the value `true` of a bool non-type template argument as -1 (not a valid argument for a bool
+            # parameter): spell it `true` where the template declares a bool parameter at that position
+            tpl = self.parent.get(n.get('id')) or {}
+            tparams = [c for c in tpl.get('inner', ()) if isinstance(c, dict) and c.get('kind') in ('TemplateTypeParmDecl', 'NonTypeTemplateParmDecl', 'TemplateTemplateParmDecl')]
+            if len(tparams) == len(ta):
+                for i, tp in enumerate(tparams):
+                    if tp.get('kind') == 'NonTypeTemplateParmDecl' and ta[i] == '-1' and not tp.get('isParameterPack'):
+                        tq = (tp.get('type') or {})
+                        if 'bool' in (tq.get('desugaredQualType') or tq.get('qualType') or ''):
+                            ta[i] = 'true'
             if ta:
                 targs = '<' + ', '.join(ta) + ' >'
         name = n.get('name')
